@@ -2,6 +2,7 @@ import RaftModel.Driver.Inflights
 import RaftModel.Driver.Proto
 import RaftModel.Driver.Quorum
 import RaftModel.Driver.ConfChange
+import RaftModel.Driver.RaftLog
 
 /-
 `rvm` — the model side of the correspondence check.
@@ -17,6 +18,7 @@ structure DState where
   inf : Option Inflights := none
   p : Option RaftModel.P.PSys := none
   cc : Option Tracker := none
+  rl : Option RaftLog := none
   lines : Nat := 0
   compared : Nat := 0
   mismatches : Nat := 0
@@ -35,9 +37,10 @@ def tokens (s : String) : List String :=
 def dispatch (st : DState) (comp : String) (cmd : List String) : DState × String :=
   match comp with
   | "inf" => let (s, o) := handleInf st.inf cmd; ({ st with inf := s }, o)
-  | "p" => let (s, o) := handleP st.p cmd; ({ st with p := s }, o)
+  | "p" => let (s, o) := PD.handleP st.p cmd; ({ st with p := s }, o)
   | "q" => (st, handleQuorum cmd)
   | "cc" => let (s, o) := handleCc st.cc cmd; ({ st with cc := s }, o)
+  | "rl" => let (s, o) := handleRL st.rl cmd; ({ st with rl := s }, o)
   | _ => (st, "bad-op")
 
 /-- after a disagreement the component's sequence is abandoned until its next `new` -/
@@ -46,6 +49,7 @@ def abandon (st : DState) (comp : String) : DState :=
   | "inf" => { st with inf := none }
   | "p" => { st with p := none }
   | "cc" => { st with cc := none }
+  | "rl" => { st with rl := none }
   | _ => st
 
 def stepLine (st : DState) (line : String) : DState × Option String :=
